@@ -59,8 +59,8 @@ func runC07(r *rt.Run) {
 	// large documents, as they are, and with their last byte removed / one byte appended
 	large := docgen.LargeDocs()
 	r.Bounds["large_documents"] = len(large)
-	large = append(append(large, docgen.NumberDocs()...), docgen.MemberDocs()...)
-	r.Bounds["number_spelling_and_member_text_documents"] = len(large) - r.Bounds["large_documents"].(int)
+	large = append(large, docgen.ExtraDocs()...)
+	r.Bounds["number_spelling_member_text_and_string_alphabet_documents"] = len(large) - r.Bounds["large_documents"].(int)
 	r.ParFor(len(large), func(i int, w *rt.Worker) {
 		for vi, text := range []string{large[i], large[i][:len(large[i])-1], large[i] + "x", " \n" + large[i] + "\t "} {
 			w.States++
